@@ -18,6 +18,14 @@ register("C09",
          "Trusted: Coq kernel (vm_compute used for the one-era sweeps), the fail-closed py2v translator (validated on the 8x8 name domain each run), extraction (ExtrOcamlBasic) for the calendar tie, DuckDB DATE_TRUNC as oracle. No axioms (Closed under the global context).",
          "Coq proof over translator-regenerated model + calendar floor theorems; correspondence vs DuckDB", "DESIGN.md section 6/C09")
 
+register("C10",
+         "Machine-checked Coq theorems for graphs of ANY size: every adjacency edge stems from a declaration with the right keys/cardinality (C10_edges_declared), adjacency is symmetric with inverted cardinality, "
+         "a returned path is a chain and no chain is shorter, NoPath only when no chain exists (fuel proved sufficient), existence and length are symmetric, validate_query's join check reports every unjoinable pair. "
+         "Key defaults / normalisation / inversion are regenerated from /repo each run; the adjacency/BFS model is hand-written and tied by correspondence (random graphs quick; exhaustive 7^6 x 12 thorough), "
+         "and an independent oracle checks chain/minimal/symmetric/keys on the implementation's own answers.",
+         "Trusted: Coq kernel; fail-closed py2v translator (validated each run); extraction (ExtrOcamlBasic, ExtrOcamlString) + graph_driver.ml; the hand-written Model/Graph.v is modelled-not-verified and tied by differential testing. Hypothesis: model names distinct. No axioms.",
+         "Coq proof (BFS invariant, adjacency symmetry) over hand-written model + translator-regenerated key functions; correspondence via extraction", "DESIGN.md section 6/C10")
+
 PENDING = "check not built yet in this revision (see DESIGN.md section 10 build order)"
 
 
